@@ -27,7 +27,7 @@ def classify(req, obs, rule):
     # These cases are generated only while the pattern is listed as open (harness flag -breaker-panicnil below).
     f = req.split()
     if f[0] == "stackn" and "B" in f[1].split(",") and "pn/n" in f[3].split(";") and \
-            rule in ("violated:transparent_result", "violated:recoverer_panic_becomes_error", "violated:retry_attempt_count", "diff"):
+            rule in ("violated:transparent_result", "violated:recoverer_panic_becomes_error", "violated:retry_attempt_count", "violated:handler_called_exactly_once", "diff"):
         return "breaker+panicnil"
     return None
 
@@ -56,7 +56,7 @@ PROP = {
         "ignore_errors_only_listed", "ignore_errors_cause",
         "instant_ack_before_call", "throttle_transparent", "breaker_transparent",
         "throttle_rate", "throttle_window_count", "throttle_model_admissible", "throttle_lifetime_rate", "throttle_valid_is_lax",
-        "throttle_takes_tick_whatever_the_context", "Legacy.breaker_swallows_nil_panic",
+        "throttle_takes_tick_whatever_the_context", "Legacy.breaker_swallows_nil_panic", "simple_never_introduces_panic",
         "delay_transparent", "delay_recurrence", "delay_seq_failures",
         "delay_closed_form_bound_partial", "delay_capped_from_second", "delay_first_uncapped_witness",
         "delay_gap_bound", "Old.delay_fraction_truncated",
@@ -77,10 +77,13 @@ PROP = {
     "classify": classify,
     "rule": "stack: the bare handler and each of 18 configured middlewares (Timeout 1h / Timeout 0, CorrelationID, Recoverer, "
             "IgnoreErrors x4 lists, InstantAck, Throttle, closed CircuitBreaker, DelayOnError x3 configurations, Retry MaxRetries "
-            "0..3; plus 2 DelayOnError configurations with init>max on a small sample) x 16 handler results (outputs with/without/with-empty correlation id, plain / "
-            "pkg-errors-wrapped / fmt-%w-wrapped / nested errors, panics with string, empty string, error and nil) x 72 messages "
+            "0..3; plus 2 DelayOnError configurations with init>max on a small sample) x 20 handler results (outputs with/without/with-empty correlation id, plain / "
+            "pkg-errors-wrapped / fmt-%w-wrapped / nested errors, panics with string, empty string, error and nil) x 84 messages "
             "(context live / cancelled / with deadline; correlation id absent / empty / set; delay metadata absent / 2µs / empty / "
-            "unparseable; handler rewrites the incoming correlation id or not), exhaustively; every ordered pair and (enumerated by kind, with Retry at each position) ordered triples "
+            "unparseable; handler rewrites the incoming correlation id or not; plus 12 messages with a caller-set deadline beyond every Timeout (1000h) "
+            "and/or acked / nacked before they enter the chain), exhaustively; results now 20: also an error of a slice type (not "
+            "comparable / hashable) plain, pkg-wrapped and unlisted, and a panic with a []string value; the handler classifies the "
+            "deadline it sees (none / within the Timeouts' horizon / later) and the settlement (none / acked / nacked); every ordered pair and (enumerated by kind, with Retry at each position) ordered triples "
             "with at most one Retry, multi-attempt scripts (fail k times then succeed / panic / listed-unlisted mixes) and "
             "messages drawn from the seed. Observed per case: result, and for every handler invocation Deadline() ok, ctx.Err(), "
             "Acked, delay metadata; afterwards msg.Context() identity/Deadline/Err, Acked, delay keys, remaining metadata. "
@@ -134,6 +137,11 @@ PROP = {
         "every call is a function of its own message, so concurrent calls cannot influence each other; the conc cases sample exactly "
         "that on the real code (an interleaving-dependent check: a change that only misbehaves under a rare interleaving may need "
         "several runs to show a failing input, the fact flags it at once)",
+        "Timeout(d) is modelled by classes: the derived context's deadline lies within the horizon of the chain's Timeouts (far = "
+        "false) whatever later deadline the caller had set; the harness uses Timeout(1h) / Timeout(0) and a caller deadline of 1000h "
+        "and classifies deadlines by 'within 2h' – the exact instant is not compared",
+        "InstantAck on a message nacked before: Ack() is a no-op returning false; the handler is still called and its result passes "
+        "(ackMsg); a message acked before stays acked",
         "outputs are distinct non-nil messages built with NewMessage (non-nil Metadata) and different from the incoming message",
         "durations are non-negative; Multiplier >= 1 (num >= den > 0)",
         "'k-th consecutive failure' counts the failures of this message since its delay metadata was absent or unparseable; a "
